@@ -15,7 +15,9 @@ import json, os, re, glob
 
 OUT = "/verif/seeded"
 SUM = {}
-for f in ("/verif/tools/seed_summaries.json", "/verif/tools/seed_summaries2.json"):
+for f in ("/verif/tools/seed_summaries.json", "/verif/tools/seed_summaries2.json", "/verif/tools/seed_summaries3.json"):
+    if not os.path.exists(f):
+        continue
     SUM.update(json.load(open(f)))
 
 def parse(path):
@@ -42,7 +44,7 @@ def parse(path):
     return res
 
 raw = {}
-for f in ("campaign2_raw_results.txt", "campaign3_raw_results.txt", "campaign4_raw_results.txt", "campaign5_raw_results.txt"):
+for f in ("campaign2_raw_results.txt", "campaign3_raw_results.txt", "campaign4_raw_results.txt", "campaign5_raw_results.txt", "campaign6_raw_results.txt"):
     for k, v in parse(f"{OUT}/{f}").items():
         e = raw.setdefault(k, {"verify": None, "runs": []})
         e["verify"] = e["verify"] or v["verify"]
@@ -81,7 +83,7 @@ for d in sorted(glob.glob(f"{OUT}/C*-m*"), key=lambda p: (os.path.basename(p).sp
         first.setdefault(c, (c, ex, n, keys))
     meta = {
         "property": name.split("-")[0],
-        "campaign": 2 if k <= 7 else (3 if k <= 11 else (4 if k <= 15 else 5)),
+        "campaign": 2 if k <= 7 else (3 if k <= 11 else (4 if k <= 15 else (5 if k <= 19 else 6))),
         "origin": "written by a fresh sub-agent that was given only the text of the property and its own scratch git worktree of /repo (nothing from /verif)",
         "what_it_changes": what,
         "what_it_needs_in_order_to_manifest": needs,
@@ -104,7 +106,7 @@ for d in sorted(glob.glob(f"{OUT}/C*-m*"), key=lambda p: (os.path.basename(p).sp
 
 with open(f"{OUT}/RESULTS.md", "w") as f:
     f.write("# Seeded changes and which checks catch them\n\n")
-    f.write("Each row is a property-breaking change that compiles and passes the existing suite (142 passed, the baseline's one always-failing test aside), with a demonstration that passes without and fails with it (all confirmed by me with tools/verify_seed.sh). m1-m3: first campaign, m4-m7: second, m8-m11: third, m12-m15: fourth, m16-m19: fifth (adversary-aware prompt). 'when it arrived' = harness as it was when the sub-agent delivered the change; 'final harness' = every stored change re-run against the harness as committed (tools/final_campaign.sh, quick tier, default seed).\n\n")
+    f.write("Each row is a property-breaking change that compiles and passes the existing suite (142 passed, the baseline's one always-failing test aside), with a demonstration that passes without and fails with it (all confirmed by me with tools/verify_seed.sh). m1-m3: first campaign, m4-m7: second, m8-m11: third, m12-m15: fourth, m16-m19: fifth (adversary-aware prompt), m20-m21: sixth (histories, clocks and cooperating sites). 'when it arrived' = harness as it was when the sub-agent delivered the change; 'final harness' = every stored change re-run against the harness as committed (tools/final_campaign.sh, quick tier, default seed).\n\n")
     f.write("| change | what / needs | when it arrived | final harness |\n|---|---|---|---|\n")
     for r in rows:
         f.write("| " + " | ".join(x.replace("|", "\\|") for x in r) + " |\n")
